@@ -235,7 +235,15 @@ def _walk_lark_tree(op, *, data_def=None) -> data_algebra.expr_rep.Term:
                 return getattr(left, op_name)(data_algebra.expr_rep.Value(False))
             if r_op.data in ["list", "tuple", "set"]:  # any collection
                 assert len(r_op.children) == 1
-                op_values = [_r_walk_lark_tree(vi) for vi in r_op.children[0].children]
+                items = r_op.children[0]
+                if isinstance(items, lark.tree.Tree) and (
+                    items.data in ["tuplelist_comp", "set_comp"]
+                ):
+                    item_nodes = items.children
+                else:
+                    # the grammar inlines a one-element list: the child is the element itself
+                    item_nodes = [items]
+                op_values = [_r_walk_lark_tree(vi) for vi in item_nodes]
                 # check all args are values, not None, same type
                 assert all(
                     [isinstance(vi, data_algebra.expr_rep.Value) for vi in op_values]
